@@ -133,9 +133,7 @@ func (p *printer) attr(a *Attr, ind int, multi bool) {
 	case "boolconst":
 		p.w(a.Name)
 	case "expr":
-		p.w(a.Name + "={ ")
-		p.expr("attribute", p.src(a.E, false, ind))
-		p.w(" }")
+		p.attrBraces(a, ind, p.src(a.E, false, ind))
 	case "boolexpr":
 		p.w(a.Name + "?={ ")
 		p.expr("boolean attribute", p.src(a.Cond, false, ind))
@@ -158,9 +156,7 @@ func (p *printer) attr(a *Attr, ind int, multi bool) {
 				items = append(items, p.src(it.E, false, ind))
 			}
 		}
-		p.w("class={ ")
-		p.expr("attribute", strings.Join(items, ", "))
-		p.w(" }")
+		p.attrBraces(a, ind, strings.Join(items, ", "))
 	case "cond":
 		// conditional attributes always span lines
 		p.w("if ")
@@ -186,10 +182,41 @@ func (p *printer) attr(a *Attr, ind int, multi bool) {
 	}
 }
 
+// attrBraces writes name={ expr } in the attribute's spelling.
+func (p *printer) attrBraces(a *Attr, ind int, src string) {
+	name := a.Name
+	if a.Kind == "class" {
+		name = "class"
+	}
+	if a.Tight {
+		src = strings.NewReplacer(" + ", "+", " == ", "==", " > ", ">", " && ", "&&", " || ", "||").Replace(src)
+	}
+	switch a.Pad {
+	case 1:
+		p.w(name + "={")
+		p.expr("attribute", src)
+		p.w("}")
+	case 2, 3:
+		p.w(name + "={\n")
+		p.indent(ind + 1)
+		p.expr("attribute", src)
+		if a.Pad == 3 {
+			p.w(",")
+		}
+		p.w("\n")
+		p.indent(ind)
+		p.w("}")
+	default:
+		p.w(name + "={ ")
+		p.expr("attribute", src)
+		p.w(" }")
+	}
+}
+
 func hasCondAttr(attrs []Attr) bool {
 	for _, a := range attrs {
-		if a.Kind == "cond" {
-			return true
+		if a.Kind == "cond" || ((a.Kind == "expr" || a.Kind == "class") && a.Pad >= 2) {
+			return true // these attributes span lines: the element cannot be a single-line one
 		}
 	}
 	return false
